@@ -16,10 +16,38 @@ Oracle (float64, public arrays only, formulas written from the property statemen
   ``grid_point_radius_ratio`` in [0, 1]), centre markers on the element centre; every marker velocity ==
   ``v_elem + Omega_elem_lab x offset``.  Repeated after the rod has been advanced / re-posed (stale caches).
 
-Tolerances: 64 * eps64 * (|terms|); measured max err/tol <= 0.03 on the unchanged tree (seeds 0..5).
+Tolerances: 64 * eps64 * (|terms|).  Measured max err/tol on the unchanged tree (quick seeds 0..5, thorough
+seeds 0,1): rigid_velocity 0.021, rod_velocity 0.007, rod_position 0.013 (surface) / 0.05 (edge grid: PyElastica's
++1e-14 length regularisation makes |tangent| = 1 - 1e-14/l_e; 20x that is allowed), sphere_translation 0.022.
+The two finite-difference statistics (0.667 = 1/1.5) are measured against ANALYTIC truncation inequalities with a
+1.5x slack, not against a noise floor; their rounding part uses the same 64*eps floor.  Error ratio under
+h -> h/2: 4.000 in every case (accepted window [3, 5]).
 
-Self-test (tools/mut.sh --sed ... C09, quick tier): see table at the end of this docstring (filled from
-the runs recorded in the final report).
+Observed on the unchanged tree (confirmed before asserting): the element velocity SophT uses is the nodal-mass
+weighted average (m_k v_k + m_{k+1} v_{k+1}) / (m_k + m_{k+1}), not the plain mid-point average.
+
+Self-test: ``tools/mut.sh --sed <expr> <file> C09`` (quick tier, seed 0); all 19 -> VIOLATION
+  rigid_body_forcing_grids.py
+    3-D velocity: Omega = Q omega (``.T`` dropped, l.143)             marker-velocity!=V+Omega x r|plane3d,cyl3d,...
+    3-D position: Q instead of Q^T (l.132)                            advanced-pose-markers!=velocity*h|plane3d,...
+    3-D velocity: sign of omega x r (l.146)                           marker-velocity!=V+Omega x r
+    3-D velocity: local- instead of global-frame offsets (l.148)      marker-velocity!=V+Omega x r
+    2-D velocity: Q[2,2] factor dropped (z handling, l.45)            marker-velocity!=V+Omega x r|generic2d,cyl2d (d3 = -z poses)
+    2-D velocity: sign of the omega x r x-component (l.50)            marker-velocity!=V+Omega x r|cyl2d
+    2-D position: Q instead of Q^T (l.31)                             advanced-pose-markers!=velocity*h|cyl2d
+    sphere: markers rotate with the body (l.299)                      marker-velocity!=V+Omega x r|sphere3d, sphere-markers-do-not-translate-with-centre
+  cosserat_rod_forcing_grids.py
+    edge velocity: Omega = Q omega (transpose dropped, l.220)         marker-velocity!=v_elem+Omega x offset|edge2d
+    edge velocity: right-edge arm sign (l.235)                        marker-velocity!=v_elem+Omega x offset|edge2d
+    edge position: half radius (l.197)                                marker-distance-from-element-centre|edge2d
+    surface: radius ratio ignored on caps (l.428)                     marker-distance-from-element-centre|surfacecap3d
+    surface position: Q instead of Q^T (l.417)                        surface-marker-outside-cross-section-plane|surface3d
+    surface velocity: sign of omega x r (l.466)                       marker-velocity!=v_elem+Omega x offset|surface3d
+    surface velocity: plain instead of mass-weighted v_elem (l.448)   marker-velocity!=v_elem+Omega x offset|surface3d
+    surface: centre marker of collapsed elements off-centre (l.381)   marker-distance-from-element-centre|surface3d
+    nodal velocity: wrong components in 2-D (z handling, l.32)        nodal-marker-velocity!=node-velocity|nodal2d
+    element-centric position: node instead of centre (l.100)          marker-distance-from-element-centre|elem3d
+    element-centric velocity: plain average (l.107)                   marker-velocity!=v_elem+Omega x offset|elem3d
 """
 import numpy as np
 
